@@ -52,7 +52,14 @@ RULE = ('random call graphs: 1-5 levels, 1-2 callables per level drawn from func
         'the failing population (outcome not compared, the reference is not asked), repaired from Python (relate), read '
         'again (= a fresh evaluation), broken, read, repaired, read; every 5th case writes to a derived attribute (from Python '
         'and in the body of another callable) and reads it again from Python, in an expression and in a where clause: '
-        'it stays derived; string constants contain apostrophes (single, doubled, leading, trailing, only apostrophes)')
+        'it stays derived; string constants contain apostrophes (single, doubled, leading, trailing, only apostrophes); '
+        'names that coincide across name spaces: in 40 % of the models with an enumeration some constants are called like '
+        'enumerators and some enumerators like a constant / an enumeration / a class / the external entity / a function / a '
+        'parameter / an attribute / a local variable (the bodies read both as the statement generator places them); every 5th '
+        'case (i % 5 == 2) adds an enumeration of such enumerators (and the constants of those names, integer / string / '
+        'boolean) read as E::name in one or two callables of different kinds - in an expression, a where clause, a loop '
+        'condition, an if condition - next to the bare constants, the parameter, the local and the function of those names, '
+        'in a derived attribute and from Python')
 EXHAUSTIVE = {'quick': False, 'thorough': False}
 ASSUMPTIONS = ['bodies are type-correct, terminating and error-free under the reference semantics (decided by Spec)',
                'callables do not delete instances; callables used in where clauses and derived attributes do not change the population',
@@ -176,6 +183,38 @@ def body_cost(stmts, cost_of, mult=1):
     return total
 
 
+TWIN_POOL = ['A', 'B', 'EE1', 'R1', 'fn1', 'fn2', 'x', 'y', 't', 'cnt', 'n', 's', 'ID', 'v1', 'k', 'K1', 'K2']
+
+
+def twin_names(rng, enums, consts):
+    """'two of a kind' across name spaces.  An enumerator is a name INSIDE its enumeration: `E::name` is the position of
+    `name` in E whatever else the model or the body knows under that name.  In 40 % of the models that have an enumeration
+    some constants are called like enumerators (of any enumeration) and some enumerators like something else: a constant,
+    an enumeration (their own, another one), a class, the external entity, the association, a function, a parameter, an
+    attribute, a local variable.  Nothing else changes: the bare name stays the constant / the variable, `::name()` the
+    function, the Python-side tuple of the enumeration has the modeled fields."""
+    r = rng
+    if not enums or r.random() >= 0.4:
+        return enums, consts
+    enums = [(en, list(names)) for en, names in enums]
+    consts = list(consts)
+    taken = set(n for n, _, _ in consts)
+    for k, (cn, ty, text) in enumerate(consts):
+        if r.random() < 0.6:
+            nm = r.choice(r.choice(enums)[1])
+            if nm not in taken:
+                taken.add(nm)
+                consts[k] = (nm, ty, text)
+    pool = TWIN_POOL + [en for en, _ in enums]
+    for en, names in enums:
+        for k in range(len(names)):
+            if r.random() < 0.25:
+                nm = r.choice(pool)
+                if nm not in names:
+                    names[k] = nm
+    return enums, consts
+
+
 def gen_model(rng, max_levels, body_stmts):
     """-> (spec for gen_bp_model, list of callable descriptions with their bodies, enums, consts)"""
     r = rng
@@ -194,6 +233,9 @@ def gen_model(rng, max_levels, body_stmts):
         else:
             text = r.choice(['true', 'false', 'TRUE', 'False'])
         consts.append(('K%d' % (k + 1), ty, text))
+    if hasattr(r, 'fork'):
+        # a stream of its own: the models keep their shape, only names coincide
+        enums, consts = twin_names(r.fork('twin-names'), enums, consts)
     gen_consts = [(n, t) for n, t, _ in consts]
     callables = []         # dicts: sig + 'body' (tree) + 'text' + 'level'
     derived = []           # (cls, attr, ty) in definition order
@@ -650,6 +692,106 @@ def add_novalue(rng, callables, entries, pop):
     return entries[:k] + [call(False), call(True), call(False)] + entries[k:]
 
 
+def add_enum_twins(rng, callables, enums, consts, entries, pop):
+    """an enumeration whose enumerators are called like OTHER things of the same model - constants (integer, string,
+    boolean; in the one constant specification the generated models have), the enumeration itself, a class, a function, the
+    external entity, a parameter / a local variable of the reading body, an attribute - next to plain ones; every enumerator
+    is read as `E::name` in callables of several kinds (expression, where clause, loop condition, if condition, derived
+    attribute) that ALSO read the bare constants, the parameter, the local and call the function: an enumerator is its
+    position in the modeled order, a constant its modeled value, each in its own name space"""
+    r = rng
+    en = r.choice(['TW', 'Tw', 'Mode'])
+    lvl = max([x['level'] for x in callables] or [0])
+    have = set(n for n, _, _ in consts)
+    new_consts = []
+    for k in range(r.randint(1, 3)):
+        ty = r.choice(['integer', 'integer', 'string', 'boolean'])
+        text = (r.choice(['0', '7', '42', '-3', '100', '1', '2']) if ty == 'integer'
+                else r.choice(['abc', '', 'x y']) if ty == 'string' else r.choice(['true', 'false']))
+        nm = r.choice(['MAX', 'DEFAULT', 'tk%d' % k, 'Off', 'LIMIT', 'n%d' % k])
+        if nm not in have and nm not in [c[0] for c in new_consts]:
+            new_consts.append((nm, ty, text))
+    fname = 'twf'
+    others = [en, r.choice(['A', 'B']), fname, 'EE1', 'x', 'k', 'n', 'R1']
+    r.shuffle(others)
+    plain = ['first', 'last', 'mid']
+    r.shuffle(plain)
+    names = [c[0] for c in new_consts] + others[:r.randint(0, 3)] + plain[:r.randint(0, 2)]
+    for p in plain:
+        if len(names) < 2 and p not in names:
+            names.append(p)
+    r.shuffle(names)
+    consts.extend(new_consts)
+    enums.append((en, names))
+    fb = [['return', ['int', 90]]]
+    f = _sig('function', fname, None, [], 'integer', True)
+    f.update(recursive=False, level=lvl, body=fb, text=G.render(fb), cost=1)
+    callables.append(f)
+
+    def E(nm):
+        return ['enum', en, nm]
+
+    def fold(acc, e):
+        return ['assign', acc, ['bin', '+', ['bin', '*', ['var', acc], ['int', 11]], e]]
+
+    def reader(kind, name):
+        cls = r.choice(['A', 'B'])
+        body = [['assign', 'k', ['int', 40]], ['assign', 'acc', ['param', 'x']]]
+        order = list(names)
+        r.shuffle(order)
+        for nm in order:
+            body.append(fold('acc', E(nm)))
+        for cn, ty, _ in new_consts:
+            if ty == 'integer':
+                body.append(fold('acc', ['var', cn]))
+            elif ty == 'boolean':
+                body.append(['if', ['var', cn], [fold('acc', ['int', 5])], [], None])
+            else:
+                body.append(['if', ['bin', '==', ['var', cn], ['str', 'abc']], [fold('acc', ['int', 6])], [], None])
+        body.append(fold('acc', ['bin', '+', ['var', 'k'], ['callf', fname, []]]))
+        nw, nl, nc = r.choice(names), r.choice(names), r.choice(names)
+        body += [['select_from', 'many', 'qs', cls, ['bin', r.choice(['>=', '<', '==', '!=']), ['attr', ['selected'], 'n'], E(nw)]],
+                 fold('acc', ['un', 'cardinality', ['var', 'qs']]),
+                 ['assign', 'i', ['int', 0]],
+                 ['while', ['bin', '<', ['var', 'i'], E(nl)], [['assign', 'i', ['bin', '+', ['var', 'i'], ['int', 1]]]]],
+                 fold('acc', ['var', 'i']),
+                 ['if', ['bin', '==', E(nc), ['int', names.index(nc)]], [fold('acc', ['int', 1])], [], [fold('acc', ['int', 2])]],
+                 ['return', ['var', 'acc']]]
+        ns = {'function': None, 'bridge': 'EE1', 'classop': cls, 'instop': cls}[kind]
+        h = _sig(kind, name, ns, [('x', 'integer')], 'integer', True)
+        h.update(recursive=False, level=lvl + 1, body=body, text=G.render(body), cost=3, enum_twins=True)
+        callables.append(h)
+        kw = {'x': r.choice([0, 1, 3])}
+        if kind == 'function':
+            return ['fn', name, kw]
+        if kind == 'bridge':
+            return ['brg', 'EE1', name, kw]
+        if kind == 'classop':
+            return ['cop', cls, name, kw]
+        return ['iop', cls, r.randrange(len(pop['inst'][cls])), name, kw]
+
+    kinds = ['function', 'bridge', 'classop']
+    if pop['inst']['A'] and pop['inst']['B']:
+        kinds.append('instop')
+    r.shuffle(kinds)
+    block = [reader(k, 'twread%d' % j) for j, k in enumerate(kinds[:r.choice([1, 2])])]
+    dcls = r.choice([c for c in ('A', 'B') if pop['inst'][c]] or [None])
+    if dcls is not None:
+        # a derived attribute: the attribute value compared with / added to enumerators
+        a, b = r.choice(names), r.choice(names)
+        db = [['setattr', ['self'], 'dtw', ['bin', '+', ['bin', '*', E(a), ['int', 10]], E(b)]]]
+        d = _sig('derived', 'dtw', dcls, [], 'integer', True)
+        d.update(recursive=False, level=lvl, body=db, text=G.render(db), cost=1, nav=False)
+        callables.append(d)
+        block.append(['dattr', dcls, r.randrange(len(pop['inst'][dcls])), 'dtw'])
+    block.append(['enum', en, r.choice(names)])
+    for cn, _, _ in new_consts[:2]:
+        block.append(['const', cn])
+    r.shuffle(block)
+    k = r.randrange(len(entries) + 1)
+    return entries[:k] + block + entries[k:]
+
+
 def _skipped_by_spec(e):
     """a derived-attribute read made in a population in which its body FAILS, or a WRITE from Python to a derived attribute
     (no stored value exists: the write has no effect, whether it is refused or ignored): the reference semantics is not
@@ -1030,6 +1172,8 @@ def generate(ctx):
             entries = add_derived_write(r.fork('dwrite'), callables, entries, pop)
         if i % 5 == 3:
             entries = add_failing_derived(r.fork('faild'), callables, entries, pop)
+        if i % 5 == 2:
+            entries = add_enum_twins(r.fork('enumtwins'), callables, enums, consts, entries, pop)
         if i % 10 == 4 and entries:
             entries = add_boom(r.fork('boom'), callables, entries)
             family = 'boom'
@@ -1268,6 +1412,13 @@ def _judge(case, obs, calls, raised):
     for c in case['callables']:
         if c.get('novalue'):
             stats['non_void_callable_without_value_return_' + c['novalue']] = 1
+    if any(c.get('enum_twins') for c in case['callables']):
+        stats['enumerators_named_like_other_elements_read_in_every_position'] = 1
+    cnames = set(n for n, _, _ in case['consts'])
+    if any(nm in cnames for _, names in case['enums'] for nm in names):
+        stats['models_with_an_enumerator_named_like_a_constant'] = 1
+    if any(nm in TWIN_POOL or nm == en for en, names in case['enums'] for nm in names):
+        stats['models_with_an_enumerator_named_like_another_element'] = 1
     if case.get('decoy') is not None:
         stats['another_model_interpreted_in_between'] = 1
     stats['invocations_repeated_after_a_change'] = sum(1 for k, e in enumerate(case['entries']) if e[0] in ('fn', 'brg', 'cop', 'iop') and any(x == e for x in case['entries'][:k]))
